@@ -868,6 +868,19 @@ func (g *ArtGen) dataTable() {
 func (g *ArtGen) layoutTable() {
 	g.L.Kinds["layouttable"]++
 	g.push("layout-td")
+	if g.r.Chance(1, 3) {
+		// cells with bare text, written without white space between the tags (minified pages)
+		switch g.r.Intn(3) {
+		case 0:
+			g.w(`<table role="presentation"` + g.noise() + `><tr><td` + g.noise() + `>` + g.toks(20+g.r.Intn(30)) + `</td><td>` + g.toks(20+g.r.Intn(30)) + `</td></tr></table>` + "\n")
+		case 1:
+			g.w(`<table role="presentation"><tr><th>` + g.toks(1) + `:</th><td>` + g.toks(2) + `</td></tr><tr><th>` + g.toks(1) + `:</th><td>` + g.toks(3) + `</td></tr></table>` + "\n")
+		default:
+			g.w(`<ul><li><table role="presentation"><tr><td>` + g.toks(12+g.r.Intn(20)) + `</td><td>` + g.toks(12+g.r.Intn(20)) + `</td></tr></table></li></ul>` + "\n")
+		}
+		g.pop()
+		return
+	}
 	g.w(`<table role="presentation"` + g.noise() + `><tr>`)
 	n := 1 + g.r.Intn(2)
 	for i := 0; i < n; i++ {
